@@ -81,6 +81,7 @@ class UnitFlow:
         self._solved = False
         self._at = None
         self._flow_in = None
+        self._scope_vars = None
 
     # -- flow-sensitive evaluation -----------------------------------------
     def cfg(self):
@@ -326,7 +327,10 @@ class UnitFlow:
     def is_scope_expr(self, e):
         """expression denoting a scope ChainMap: a parameter/closure variable
         named ``scope`` (or something assigned from one)"""
-        return isinstance(e, ast.Name) and e.id in ('scope', 'parent', 'cur_scope')
+        if self._scope_vars is None:
+            from .util import scope_vars
+            self._scope_vars = scope_vars(self.program, self.unit)
+        return isinstance(e, ast.Name) and e.id in self._scope_vars
 
     def _o_Subscript(self, e):
         if isinstance(e.slice, ast.Slice):
